@@ -34,7 +34,7 @@ MSG = [b"message A", b"", b"message C is longer " * 4]
 def signer_keys(env):
     g = rng(env, "signers")
     k0, k1, k2 = g.randrange(1, R_), g.randrange(1, R_), g.randrange(1, R_)
-    return [k0, k1, k2, k0, (k0 + k1) % R_]  # 3: same key as 0; 4: k0 + k1
+    return [k0, k1, k2, k0, (k0 + k1) % R_, R_ - k0]  # 3: same key as 0; 4: k0 + k1; 5: -k0 (cancels 0)
 
 
 # ------------------------------------------------------------------ reference model (formal vectors)
@@ -489,7 +489,7 @@ def run(ctx):
     bad_keys()
     for suite in BL.SUITES:
         full = suite == "basic" or not q
-        ns, nm = (5, 2) if q else (5, 3)
+        ns, nm = (6, 2) if q else (6, 3)
         pool = [(s, m) for s in range(2 if q else 3) for m in range(2 if q else 3)]
         states = multisets(pool, 2) + ([[(2, 0)], [(2, 1)], [(0, 0), (2, 1)]] if q and full else [])
         if q and not full:
@@ -500,13 +500,16 @@ def run(ctx):
         shapes3 = [[(0, 0), (1, 1), (2, 0)], [(0, 0), (0, 1), (1, 0)], [(0, 0), (0, 0), (1, 1)], [(0, 0), (1, 0), (2, 0)],
                    [(0, 0), (3, 1), (1, 0)], [(0, 0), (1, 0), (4, 1)], [(0, 0), (3, 0), (1, 1)], [(4, 0), (0, 1), (1, 1)]]
         coinc2 = [[(0, 0), (3, 1)], [(0, 0), (3, 0)], [(4, 0), (1, 1)], [(0, 0), (4, 0)]]
+        # signer 5 cancels signer 0 on the same message: the aggregate is the identity (valid in the
+        # PoP suite), and a cancelling prefix followed by more signatures
+        cancel = [[(0, 0), (5, 0)], [(0, 0), (5, 0), (1, 1)]]
         if q:
             shapes3 = shapes3[:2] + shapes3[4:6] if full else shapes3[:1] + shapes3[4:5]
             coinc2 = coinc2 if full else coinc2[:2]
         else:
             states = multisets(pool, 2) + [list(c) for c in itertools.combinations_with_replacement(pool[:4], 3)]
             shapes3 += [[(0, 0), (1, 1), (2, 2), (0, 1)], [(0, 0), (1, 0), (2, 0), (3, 0)]]
-        allstates = states + coinc2 + shapes3
+        allstates = states + coinc2 + shapes3 + cancel
         nst += len(allstates)
         # Aggregate transitions
         for i in range(0, len(allstates), 6):
@@ -517,13 +520,14 @@ def run(ctx):
                 tasks.append(("verify", {"suite": suite, "entry": "AggregateVerify", "state": st, "nsigners": ns,
                                          "nmsgs": nm, "lo": lo, "step": step, "sample": lo == 0 and st is allstates[1]}))
     # FastAggregateVerify: single-message states over the signers (incl. coincidences)
-    fstates = [[(0, 0)], [(0, 0), (1, 0)], [(0, 0), (0, 0)], [(0, 0), (3, 0)], [(0, 0), (1, 0), (4, 0)], [(0, 1), (1, 1), (2, 1)]]
+    fstates = [[(0, 0)], [(0, 0), (1, 0)], [(0, 0), (0, 0)], [(0, 0), (3, 0)], [(0, 0), (1, 0), (4, 0)], [(0, 1), (1, 1), (2, 1)],
+               [(0, 0), (5, 0)], [(0, 0), (5, 0), (1, 0)]]
     if not q:
         fstates += [[(1, 0)], [(4, 0)], [(0, 0), (1, 0), (2, 0), (3, 0)], [(0, 0), (4, 0)], [(2, 1), (2, 1), (2, 1)]]
     for st in fstates:
         step = 3
         for lo in range(step):
-            tasks.append(("verify", {"suite": "pop", "entry": "FastAggregateVerify", "state": st, "nsigners": 5, "nmsgs": 2,
+            tasks.append(("verify", {"suite": "pop", "entry": "FastAggregateVerify", "state": st, "nsigners": 6, "nmsgs": 2,
                                      "lo": lo, "step": step, "sample": lo == 0 and st is fstates[1]}))
     nst += len(fstates)
     tasks.append(("refuse", {}))
